@@ -314,7 +314,7 @@ def check_property(prop, tier, seed, verbose=False):
         # thorough tier: the bounded witness searches run even though every obligation was discharged. They are BOUNDED
         # (listed under coverage.bounded, never counted as discharged) and can only add a violation with a concrete input.
         for rp in pcfg.get('replays', []):
-            if not rp.get('on_undecided'): continue
+            if not (rp.get('on_undecided') or rp.get('thorough')): continue
             try:
                 from . import engines
                 w = {'driver': rp['driver'], 'bin': rp.get('bin', 'replay'), 'args': rp.get('args', {}), 'history': rp.get('history', '')}
@@ -322,6 +322,22 @@ def check_property(prop, tier, seed, verbose=False):
                 last = (rr.get('output', '').strip().split('\n') or [''])[-1][:300]
                 cover['bounded'].append({'search': rp['driver'], 'args': rp.get('args', {}), 'result': last, 'hit': bool(rr.get('reproduced'))})
                 if rr.get('reproduced'):
+                    # every reported hit is compared with the OPEN known findings (identified by a pattern over the
+                    # concrete witness); only hits that no listed finding describes are violations
+                    hits = [l for l in rr.get('output', '').split('\n') if l.startswith('FOUND')]
+                    unlisted = []
+                    for hline in hits:
+                        k = next((k for k in known if k.get('property') == prop and k.get('status') == 'open' and k.get('witness_pattern')
+                                  and re.search(k['obligation'], 'bounded-search:' + rp['driver']) and re.search(k['witness_pattern'], hline)), None)
+                        if k:
+                            if ('KNOWN-FINDING: property=%s %s' % (prop, k['what'])) not in lines:
+                                lines.append('KNOWN-FINDING: property=%s %s' % (prop, k['what']))
+                            ev_known = cover.setdefault('known_finding_witnesses', []); ev_known.append(hline[:200])
+                        else:
+                            unlisted.append(hline)
+                    if hits and not unlisted:
+                        cover['bounded'][-1]['hit'] = 'known findings only'
+                        continue
                     w['replayed_on_real_code'] = rr
                     m_ = re.search(r'FOUND hex=([0-9a-f]*)', rr.get('output', ''))
                     if m_: w['args'] = {'mode': 'hex', 'text': m_.group(1)}
